@@ -370,17 +370,31 @@ func TestVerifC06(t *testing.T) {
 		Extended0{"v", 1, 2, netip.Addr{}, netip.Addr{}, 3, map[string]uint8{"ut_pex": 1}, false, true},
 		ExtendedMetadata{2, 1, 0, 30, payload(30)}, ExtendedPex{1, mk(1, 1, 1), mk(1, 0, 0)}, ExtendedDontHave{3, 9},
 	}
+	// streams longer than bufio's 4 KiB buffer, so that it is refilled and reused
+	// between messages (checked with single cuts only)
+	long := [][]Message{
+		{ExtendedMetadata{2, 1, 0, 30, payload(30)}, Piece{3, 0, payload(6000)}, Have{1}},
+		{ExtendedMetadata{2, 1, 1, 20000, payload(3616)}, ExtendedMetadata{2, 1, 0, 20000, payload(16384)}, Have{1}},
+		{Bitfield{payload(300)}, ExtendedPex{1, mk(3, 3, 1), mk(2, 2, 0)}, Piece{0, 16384, payload(16384)}, Extended0{"v", 1, 2, netip.Addr{}, netip.Addr{}, 3, map[string]uint8{"ut_pex": 1}, false, true}, Piece{1, 0, payload(5000)}},
+	}
 	decodeAll := func(r io.Reader) []string {
+		// the messages are looked at only after the whole stream has been read, as
+		// a consumer at the other end of protocol.Reader's channel would: a payload
+		// that aliases the reader's buffer has been overwritten by then
 		br := bufio.NewReader(r)
+		var ms []Message
 		var out []string
 		for {
 			m, err := Read(br, nil)
 			if err != nil {
+				for _, m := range ms {
+					rm, _ := toRef(m)
+					out = append(out, fmt.Sprintf("%+v", rm))
+				}
 				out = append(out, "ERR:"+err.Error())
 				return out
 			}
-			rm, _ := toRef(m)
-			out = append(out, fmt.Sprintf("%+v", rm))
+			ms = append(ms, m)
 		}
 	}
 	maxLen := 3
@@ -413,6 +427,24 @@ func TestVerifC06(t *testing.T) {
 			stream = append(stream, b...)
 		}
 		want := fmt.Sprint(decodeAll(bytes.NewReader(stream)))
+		{
+			// the reference point is what was written, not what one delivery decoded to
+			var exp []string
+			for _, i := range sq {
+				b, _ := encodeStorrent(basis[i])
+				m, err := Read(bufio.NewReader(bytes.NewReader(b)), nil)
+				if err != nil {
+					t.Fatal(err)
+				}
+				rm, _ := toRef(m)
+				exp = append(exp, fmt.Sprintf("%+v", rm))
+			}
+			exp = append(exp, "ERR:EOF")
+			if e := fmt.Sprint(exp); e != want {
+				res.Violate("C06/stream-whole", fmt.Sprintf("a stream of %d messages delivered in one piece decodes to %s, the messages decode one by one to %s", len(sq), want, e), map[string]any{"messages": sq, "delivery": "whole"})
+				want = e
+			}
+		}
 		check := func(r io.Reader, how string) {
 			res.Add("evaluations", 1)
 			res.Add("stream_deliveries", 1)
@@ -435,6 +467,47 @@ func TestVerifC06(t *testing.T) {
 			}
 		}
 		h.nontriv[fmt.Sprint("stream", sq)] = true
+	}
+
+	for li, lm := range long {
+		if !mine() {
+			continue
+		}
+		var stream []byte
+		var exp []string
+		for _, m := range lm {
+			b, err := encodeStorrent(m)
+			if err != nil {
+				t.Fatal(err)
+			}
+			stream = append(stream, b...)
+			dm, err := Read(bufio.NewReader(bytes.NewReader(b)), nil)
+			if err != nil {
+				t.Fatal(err)
+			}
+			rm, _ := toRef(dm)
+			exp = append(exp, fmt.Sprintf("%+v", rm))
+		}
+		exp = append(exp, "ERR:EOF")
+		want := fmt.Sprint(exp)
+		step := 1
+		if !thorough {
+			step = 7
+		}
+		for k := 0; k < len(stream); k += step {
+			res.Add("evaluations", 1)
+			res.Add("stream_deliveries", 1)
+			var r io.Reader = &cutReader{data: stream, segs: []int{k}}
+			if k == 0 {
+				r = bytes.NewReader(stream)
+			}
+			if got := fmt.Sprint(decodeAll(r)); got != want {
+				res.Violate("C06/stream-cut/long", fmt.Sprintf("long stream %d (%d bytes) cut at %d: a message changed after later messages were read, or the sequence differs", li, len(stream), k),
+					map[string]any{"long": li, "cut": k})
+				break
+			}
+		}
+		h.nontriv[fmt.Sprint("long", li)] = true
 	}
 
 	// the Reader goroutine itself (init bytes + connection), over a pipe
